@@ -134,8 +134,12 @@ theorem static_response_call_sites_match_source :
 
 /-- **`hostLive false` matches the source**: automatic HTTPS phase 1 reads the host patterns
     (`ReplaceOrErr` into the loop variable) and stores nothing through the matcher it walks — the live
-    matcher keeps the configured patterns (`HostGlue.hostLive`).  seeded/C18-autohttps-writes-expanded-host-back
-    adds the store `(*hm)[hostMatcherIdx]` and breaks this without any sampled case. -/
+    matcher keeps the configured patterns (`HostGlue.hostLive`).  The fact is typed and call-following
+    (tools/extract/c18phase1.go): every store into an element of a MatchHost / *MatchHost value, or the whole slice
+    behind one, in code reachable from phase 1 through static calls inside the package (MatchHost's own methods
+    excepted), whatever the variables are called and wherever the loop lives.
+    seeded/C18-autohttps-writes-expanded-host-back adds the store `(*hm)[hostMatcherIdx]` and breaks this without any
+    sampled case (also when the loop has been moved into a helper method: harmless/C11-refactor). -/
 theorem autohttps_phase1_does_not_store_into_host_matchers_matches_source :
     Gen.autoHTTPSHostMatcherStores = [] := by decide
 
@@ -147,7 +151,7 @@ theorem autohttps_phase1_does_not_store_into_host_matchers_matches_source :
     matchers per request only.  A new call (say, of an account name in `Authenticate`, or of a provisioned value
     per request) breaks this without any sampled case. -/
 def provisionCallTable : List (String × String × String × String) := [
-  ("autohttps.go", "automaticHTTPSPhase1", "ReplaceOrErr", "d"),
+  ("autohttps.go", "automaticHTTPSPhase1", "ReplaceOrErr", "elem MatchHost"),
   ("matchers.go", "MatchWithError", "ReplaceAll", "host"),              -- MatchHost
   ("matchers.go", "MatchWithError", "ReplaceAll", "matchPattern"),      -- MatchPath
   ("matchers.go", "MatchWithError", "ReplaceAll", "param"),             -- MatchQuery
